@@ -591,25 +591,27 @@ def replay_fs(ctx, pc, results, rule, quick):
                 if r['diverged']:
                     ctx.divergence(f'fs behaviour {key}: {r["diverged"]}')
         # (b) every escaping history TLC found for the server as written
-        hists = [h[0] for h in printed_blocks(
+        hists = [(h[0], h[1]) for h in printed_blocks(
             results['fs as written (escape histories)'], 'ESC')]
         ctx.require(len(hists) > 10, 'no escape histories from TLC')
-        hists.sort(key=lambda h: (len(h), json.dumps(h)))
+        hists.sort(key=lambda h: (len(h[0]), json.dumps(h, sort_keys=True)))
         by_setup = {}
-        for h in hists:
-            by_setup.setdefault(json.dumps(h[:-1]), []).append(h)
+        for h, it in hists:
+            by_setup.setdefault(json.dumps([h[:-1], it], sort_keys=True),
+                                []).append((h, it))
         limit = 3 if quick else 10
         for _setup, group in by_setup.items():
-            for k, h in enumerate(group[:limit]):
+            for k, (h, it) in enumerate(group[:limit]):
                 reqs = [conv_req(x) for x in h]
-                r = pc.run_sequence(world, {}, reqs)
+                init = tree_from_model(pc.model_tree(it))
+                r = pc.run_sequence(world, init, reqs)
                 nseq += 1
                 ctx.count(('esc', tuple(s['req'] for s in r['steps'])))
                 if not r['escapes']:
                     ctx.divergence('model predicts an escape, none observed: '
                                    + '; '.join(pc.req_str(x) for x in reqs))
                 elif k == 0:
-                    note_escapes(pc, world, found, cache, {}, reqs, r)
+                    note_escapes(pc, world, found, cache, init, reqs, r)
         # (c) fixed regression histories (re-established findings)
         for name, reqs in REGRESSIONS:
             r = pc.run_sequence(world, {}, reqs)
